@@ -16,6 +16,9 @@ func stringify(ty *Type, inProcess util.PtrSet) string {
 			return fmt.Sprintf("recursive-type %s@%p", ty.Kind, ty)
 		} else {
 			inProcess.Add(ty)
+			// only types on the current path are "in process": a type that is
+			// merely shared between two positions is not recursive
+			defer inProcess.Del(ty)
 		}
 	}
 
